@@ -133,6 +133,8 @@ def run(ch: Choices, focus: str = "C11", params: Optional[dict] = None) -> dict:
         elif template == "reverse":
             plan["start"] = {w: 100000 * (nw - 1 - w) for w in range(nw)}
         plan["late_pickle"] = ch.chance(1, 2, "late_pickle")
+        # pipe capacity: the Linux default (64 KiB) or the smallest legal pipe (one page)
+        plan["pipe_bytes"] = [65536, 4096][ch.choose(2, "pipe")]
         plan["opcost"] = [0, 1, 2, 5][ch.choose(4, "opcost")] if template != "race" else [2, 1, 3, 5][ch.choose(4, "opcost")]
         if ch.chance(1, 4, "stall"):
             plan["stall"] = {ch.choose(nw, "stall.w"): ch.choose(3, "stall.at")}
